@@ -492,3 +492,20 @@ Proof.
   - apply (check_netlist_sound (ex_nl ex_cells_good)). vm_compute. reflexivity.
   - apply perm_swap.
 Qed.
+
+(* two independent cells in both orders: both pass the check, both runs agree (non-vacuity of
+   simulate_order_irrelevant) *)
+Definition ex_indep_1 : list node :=
+  [NCell (mkCell And2 [2; 3] 4); NCell (mkCell Xor2 [2; 3] 5)]%N.
+Definition ex_indep_2 : list node :=
+  [NCell (mkCell Xor2 [2; 3] 5); NCell (mkCell And2 [2; 3] 4)]%N.
+Definition ex_nl2 (nodes : list node) : netlist :=
+  mkNetlist [mkPort DIn [2]; mkPort DIn [3]; mkPort DOut [4; 5]]%N nodes [] [].
+Lemma order_example :
+  same_but_order (ex_nl2 ex_indep_1) (ex_nl2 ex_indep_2) /\
+  simulate (ex_nl2 ex_indep_1) [] [[[true]; [true]]; [[true]; [false]]] = RunOk [[[true; false]]; [[false; true]]] /\
+  simulate (ex_nl2 ex_indep_2) [] [[[true]; [true]]; [[true]; [false]]] = RunOk [[[true; false]]; [[false; true]]].
+Proof.
+  split; [|split; vm_compute; reflexivity].
+  repeat split. apply perm_swap.
+Qed.
